@@ -85,7 +85,9 @@ NS = {
     "Pattern": typing.Pattern, "Foo": Foo, "Bar": Bar, "Any": typing.Any, "Sequence": typing.Sequence, "Mapping": typing.Mapping,
 }
 ATOMS = ["int", "str", "float", "bytes", "bool", "None", "Foo", "typing.Any", "t.Any", "datetime.date", "datetime.datetime",
-         "list", "dict", "set", "tuple", "Pattern", "collections.abc.Hashable", "Any", "'Foo'", "object", "complex"]
+         "list", "dict", "set", "tuple", "Pattern", "collections.abc.Hashable", "Any", "'Foo'", "object", "complex",
+         # quoted forward references whose TEXT holds the constructs the rewriting is about: a constant stays the constant it was
+         "'list[int]'", "'Foo | None'", "'dict[str, Foo]'"]
 MAPPED = ("dict", "list", "set", "tuple", "Pattern")
 
 
